@@ -332,9 +332,20 @@ func scripted(out *verifutil.Out, rnd *verifutil.Rand, cfg Config, b *Blob, ckin
 	}
 }
 
+// pickBlob: zstd blobs are drawn less often (every read of the real zstd decoder allocates its
+// window, ~10 ms).
+func pickBlob(rnd *verifutil.Rand, pool []*Blob) *Blob {
+	for {
+		b := pool[rnd.Intn(len(pool))]
+		if b.Comp != "zstd" || rnd.Intn(5) == 0 {
+			return b
+		}
+	}
+}
+
 // one random scenario
 func random(out *verifutil.Out, rnd *verifutil.Rand, cfg Config, pool []*Blob, idx int) {
-	b := pool[rnd.Intn(len(pool))]
+	b := pickBlob(rnd, pool)
 	ckind := cfg.Caches[rnd.Intn(len(cfg.Caches))]
 	pr := b.Pristine()
 	views := []*View{pr}
@@ -437,7 +448,7 @@ func random(out *verifutil.Out, rnd *verifutil.Rand, cfg Config, pool []*Blob, i
 
 // one race scenario: Cache() against VerifyTOC with real goroutines
 func race(out *verifutil.Out, rnd *verifutil.Rand, cfg Config, pool []*Blob, idx int) {
-	b := pool[rnd.Intn(len(pool))]
+	b := pickBlob(rnd, pool)
 	ckind := cfg.Caches[rnd.Intn(len(cfg.Caches))]
 	pr := b.Pristine()
 	k := []string{"replace", "replace", "bitflip", "swap", "truncate"}[rnd.Intn(5)]
